@@ -40,6 +40,7 @@ class _FakeThread:
         self.driver = driver
         self.daemon = False
         driver.thread_created += 1
+        driver.kb_target, driver.kb_args = target, args
 
     def start(self):
         pass
@@ -66,15 +67,53 @@ class _ShimThreading:
         return getattr(self._real, name)
 
 
+class _Clock:
+    """time module stand-in: sleep() returns at once, perf_counter() is the driver's clock."""
+
+    def __init__(self, real, driver):
+        self._real, self._driver = real, driver
+
+    def sleep(self, secs):
+        pass
+
+    def perf_counter(self):
+        return self._driver.clock
+
+    def __getattr__(self, name):
+        return getattr(self._real, name)
+
+
 class Driver:
-    def __init__(self, quit_after=None):
+    def __init__(self, quit_after=None, keys=None):
         self.quit_after = quit_after
+        self.keys = keys            # (j, [answers of input()], seconds on the session clock): the real keypress() body is run synchronously after guess j
+        self.keys_done = False
+        self.clock = 0.0
+        self.kb_target = self.kb_args = None
+        self.cs = None
         self.fired = False
         self.nguess = 0
         self.thread_created = 0
         self.pcfg = None
 
+    def maybe_keys(self, pcfg):
+        if self.keys is None or self.keys_done or self.nguess < self.keys[0] or self.kb_target is None:
+            return
+        self.keys_done = True
+        answers = list(self.keys[1])
+        self.clock = float(self.keys[2])
+
+        def fake_input(*a):
+            if not answers:
+                raise EOFError('EOF when reading a line')
+            return answers.pop(0)
+        self.cs.input = fake_input
+        self.kb_target(*self.kb_args)
+        if pcfg.should_exit:
+            self.fired = True
+
     def maybe_fire(self, pcfg):
+        self.maybe_keys(pcfg)
         if self.quit_after is not None and not self.fired and self.nguess >= self.quit_after:
             self.fired = True
             pcfg.should_exit = True
@@ -92,13 +131,13 @@ def canonical_sav(text):
     return d
 
 
-def run_guesser(tdir, argv, quit_after=None, session='default_run', keep_modules=False):
+def run_guesser(tdir, argv, quit_after=None, session='default_run', keep_modules=False, keys=None):
     """One 'process' of pcfg_guesser in the scratch tree `tdir`."""
     import threading as real_threading
     if not keep_modules:
         tree.use(tdir)
     run = Run()
-    drv = Driver(quit_after)
+    drv = Driver(quit_after, keys)
     out, err = io.StringIO(), io.StringIO()
     old_argv = sys.argv
     sys.argv = [os.path.join(tdir, 'pcfg_guesser.py')] + list(argv)
@@ -109,6 +148,11 @@ def run_guesser(tdir, argv, quit_after=None, session='default_run', keep_modules
                 cs = sys.modules['lib_guesser.cracking_session']
                 gm = sys.modules['lib_guesser.pcfg_grammar']
                 cs.threading = _ShimThreading(drv, real_threading)
+                if keys is not None:
+                    import time as real_time
+                    drv.cs = cs
+                    cs.time = _Clock(real_time, drv)
+                    sys.modules['lib_guesser.status_report'].time = _Clock(real_time, drv)
                 G = gm.PcfgGrammar
                 orig_print = G.print_guess
                 orig_create = G.create_guesses
